@@ -75,6 +75,26 @@ fn gcall(c: &Call) -> String {
     }
 }
 
+/// calls compared by bit patterns (a NaN coordinate is equal to itself)
+fn call_bits(c: &Call) -> Vec<u32> {
+    let p = |p: &Point| vec![p.x.to_bits(), p.y.to_bits()];
+    let a = |a: &Vec<f32>| a.iter().map(|v| v.to_bits()).collect::<Vec<u32>>();
+    match c {
+        Call::Begin(q, at) => [vec![0], p(q), a(at)].concat(),
+        Call::Line(q, at) => [vec![1], p(q), a(at)].concat(),
+        Call::Quad(c1, q, at) => [vec![2], p(c1), p(q), a(at)].concat(),
+        Call::Cubic(c1, c2, q, at) => [vec![3], p(c1), p(c2), p(q), a(at)].concat(),
+        Call::End(cl) => vec![4, *cl as u32],
+    }
+}
+fn same_calls(a: &[Call], b: &[Call]) -> bool {
+    a.len() == b.len() && a.iter().zip(b.iter()).all(|(x, y)| call_bits(x) == call_bits(y))
+}
+/// a coordinate or attribute overflowed f32 while relative commands were accumulated or an arc was converted
+fn non_finite(calls: &[Call]) -> bool {
+    calls.iter().any(|c| call_bits(c).iter().skip(1).any(|b| !f32::from_bits(*b).is_finite()) && !matches!(c, Call::End(_)))
+}
+
 fn nested(calls: &[Call]) -> bool {
     let mut open = false;
     for c in calls {
@@ -212,7 +232,10 @@ fn run_case(id: usize, text: &str, n: usize, stop: Option<char>, w: &mut ShardWr
                 }
             }
             (Some(i), ParseError::Flag { src, .. }) => {
-                if i < chars.len() && chars[i] != *src {
+                // at the end of the input there is no offending character: the parser reports its end-of-input
+                // sentinel '~' at the position of the last character
+                let at_end = *src == '~' && chars[i..].iter().all(|c| c.is_whitespace() || *c == ',' || *c == '~');
+                if i < chars.len() && chars[i] != *src && !at_end {
                     st.fail(jobj(&[("what", jstr("error position does not point at the offending flag")), ("input", jstr(&format!("{} -> {:?}", label, e)))]));
                 }
             }
@@ -222,7 +245,7 @@ fn run_case(id: usize, text: &str, n: usize, stop: Option<char>, w: &mut ShardWr
     // a reused parser object behaves like a fresh one
     {
         let o2 = run_parser(text, n, stop, &mut parser);
-        if err_code(&o2) != code || o2.calls != o.calls {
+        if err_code(&o2) != code || !same_calls(&o2.calls, &o.calls) {
             st.fail(jobj(&[("what", jstr("re-using the parser object changes the result")), ("input", jstr(&label))]));
         }
     }
@@ -234,7 +257,7 @@ fn run_case(id: usize, text: &str, n: usize, stop: Option<char>, w: &mut ShardWr
         let mut p2 = PathParser::new();
         let _ = run_parser(warm_text, warm_n, None, &mut p2);
         let o3 = run_parser(text, n, stop, &mut p2);
-        if err_code(&o3) != code || o3.calls != o.calls || o3.panicked != o.panicked {
+        if err_code(&o3) != code || !same_calls(&o3.calls, &o.calls) || o3.panicked != o.panicked {
             st.fail(jobj(&[("what", jstr("a parser object used before with another attribute count gives a different result")), ("input", jstr(&format!("after {:?} (n={}): {}", warm_text, warm_n, label)))]));
             break;
         }
@@ -250,7 +273,13 @@ fn run_case(id: usize, text: &str, n: usize, stop: Option<char>, w: &mut ShardWr
             b.build().iter().count()
         });
         if r.is_none() {
-            st.fail(jobj(&[("what", jstr("parsing into Path::builder_with_attributes panicked")), ("input", jstr(&label))]));
+            let mut f = vec![("what", jstr("parsing into Path::builder_with_attributes panicked")), ("input", jstr(&label))];
+            // known finding K18: finite numbers whose sums (relative commands) or arc conversion overflow f32; Path's
+            // builders debug_assert finiteness
+            if non_finite(&o.calls) {
+                f.push(("class", jstr("K18")));
+            }
+            st.fail(jobj(&f));
         }
     }
     st.sample(format!("{} -> {:?} {:?}", label, code, o.calls));
